@@ -187,6 +187,105 @@ func checkC37(c *Ctx, r *Report) {
 		}
 	}
 
+	// R3: the content of an upload reaches the store untransformed. Forward taint from
+	// the io.Reader parameter of every Upload implementation: results of calls that
+	// take a tainted operand, and the pointer operands of such calls (the buffer that
+	// ReadFrom fills), are tainted; a tainted operand handed to a function of
+	// strings/bytes that rewrites its input is a violation.
+	r3 := r.Rule("R3", "E-TAINT", "in every Upload implementation of backend.Client no value derived from the source reader is passed through a content-rewriting function of strings/bytes (Trim*, To*, Replace*, Map, Title, Fields, Split*, Repeat)", 8)
+	rewrites := func(n string) bool {
+		for _, p := range []string{"strings.", "bytes."} {
+			if strings.HasPrefix(n, p) {
+				f := strings.TrimPrefix(n, p)
+				for _, pre := range []string{"Trim", "To", "Replace", "Map", "Title", "Fields", "Split", "Repeat"} {
+					if strings.HasPrefix(f, pre) {
+						return true
+					}
+				}
+			}
+		}
+		return false
+	}
+	var ups []*ssa.Function
+	for _, fn := range c.Funcs {
+		if c.isFixture(fn) || fn.Parent() != nil || fn.Signature.Recv() == nil || fn.Name() != "Upload" || !strings.HasPrefix(pkgOf(fn), pkgBE) || strings.Contains(pkgOf(fn), "mock") {
+			continue
+		}
+		rt := fn.Signature.Recv().Type()
+		if !types.Implements(rt, iface) && !types.Implements(types.NewPointer(rt), iface) {
+			continue
+		}
+		ups = append(ups, fn)
+	}
+	sort.Slice(ups, func(i, j int) bool { return funcName(ups[i]) < funcName(ups[j]) })
+	for _, fn := range ups {
+		var src *ssa.Parameter
+		for _, p := range fn.Params {
+			if nm := namedOf(p.Type()); nm != nil && nm.Obj().Pkg() != nil && nm.Obj().Pkg().Path() == "io" && nm.Obj().Name() == "Reader" {
+				src = p
+			}
+		}
+		if src == nil {
+			r.Unresolved(r3, funcName(fn)+": no io.Reader parameter")
+			continue
+		}
+		r.Analysed(fn)
+		tainted := map[ssa.Value]bool{src: true}
+		var bad ssa.Instruction
+		badName := ""
+		for changed := true; changed; {
+			changed = false
+			mark := func(v ssa.Value) {
+				if v != nil && !tainted[v] {
+					tainted[v] = true
+					changed = true
+				}
+			}
+			for _, b := range fn.Blocks {
+				for _, in := range b.Instrs {
+					var ops []*ssa.Value
+					any := false
+					for _, op := range in.Operands(ops) {
+						if *op != nil && tainted[*op] {
+							any = true
+						}
+					}
+					if !any {
+						continue
+					}
+					switch x := in.(type) {
+					case *ssa.Store:
+						if tainted[x.Val] {
+							mark(x.Addr)
+						}
+					case ssa.CallInstruction:
+						if n := calleeName(x.Common()); rewrites(n) && bad == nil {
+							bad, badName = in, n
+						}
+						if v := x.Value(); v != nil {
+							mark(v)
+						}
+						args := x.Common().Args
+						if x.Common().IsInvoke() {
+							args = append([]ssa.Value{x.Common().Value}, args...)
+						}
+						for _, a := range args {
+							if _, isPtr := a.Type().Underlying().(*types.Pointer); isPtr {
+								mark(a)
+							}
+						}
+					default:
+						if v, isV := in.(ssa.Value); isV {
+							mark(v)
+						}
+					}
+				}
+			}
+		}
+		r.Check(bad == nil, r3, fn, "upload content untransformed", bad, fmt.Sprintf("%d values derive from the source; none is rewritten", len(tainted)),
+			"the uploaded content passes through "+badName+" before it is stored: Download returns bytes that differ from the bytes uploaded")
+	}
+
 	var names []string
 	for n := range impls {
 		names = append(names, n)
